@@ -339,6 +339,11 @@ SlowRead(r, k) == Walk(RefOfRoot(r), k)
 (* C16: every available state reads as exactly that state, through both read paths *)
 LiveReadable == CapIdle => \A r \in LiveRoots : \A k \in Key : FastRead(r, k) = r[k] /\ SlowRead(r, k) = r[k]
 
+(* C16 (weaker, for the as-code configuration): no read at an available root yields another  *)
+(* state's data                                                                               *)
+NoWrongData == CapIdle => \A r \in LiveRoots : \A k \in Key :
+                  FastRead(r, k) \in {r[k], ErrStale} /\ SlowRead(r, k) \in {r[k], ErrStale}
+
 (* C16: a finished read returned the value of the requested state or the stale error, never *)
 (* another state's data - whatever cap/flush steps ran between its two steps                 *)
 ReadCorrect == \A rd \in Readers : readers[rd].pc = "done" =>
